@@ -330,3 +330,20 @@ Proof.
   destruct (first_tick_after_bounds t0 p deadline Hp Hd) as [C D].
   subst start deadline noticed. lia.
 Qed.
+
+(** The connected set matters only through the peers concerned: connections to anybody else - however
+    many, whatever the node's connection limit - change nothing about a connectivity check. *)
+Lemma eligible_ext c now active active' pend bk pi :
+  memN (pi_id pi) active = memN (pi_id pi) active' ->
+  eligible c now active pend bk pi = eligible c now active' pend bk pi.
+Proof. intros E. unfold eligible. now rewrite E. Qed.
+
+Lemma check_other_connections_irrelevant c now res known active active' out s :
+  (forall pi, In pi known -> memN (pi_id pi) active = memN (pi_id pi) active') ->
+  check c now res known active out s = check c now res known active' out s.
+Proof.
+  intros H. unfold check. destruct (drain c now res (pending s) (backoff s)) as [pend1 bk1].
+  assert (E : filter (eligible c now active pend1 bk1) known = filter (eligible c now active' pend1 bk1) known).
+  { apply filter_ext_in. intros pi I. apply eligible_ext. now apply H. }
+  now rewrite E.
+Qed.
